@@ -10,7 +10,7 @@
 //     (amb counts queries that matched more than one j; '?' = matches none: not a subdivision point)
 //   * in R^1 with s1 = 0 the index is additionally decoded arithmetically, j = round(x * n / s2), and must
 //     agree with the table ('?' otherwise).
-// header:  motion space=<r1|rn|so2|se2|cmpd|cmpd2|dubins|dubinssym|rs|owen|vana|vanaowen|proj|tb> validator=<default|discrete>
+// header:  motion space=<r1|rn|so2|se2|cmpd|cmpd2|dubins|dubinssym|rs|owen|vana|vanaowen|proj|atlas|tb> validator=<default|discrete>
 //                 frac=<f> lo=<f> hi=<f> dim=<d> f=<k,..> rho=<f>
 //          f lists the segment-count factor of every space node in pre-order (compound first, then its parts).
 // ops:     invalid idx <j>*        -> ok        (scripted predicate: these subdivision indices are invalid)
@@ -47,8 +47,10 @@
 #include <ompl/base/Constraint.h>
 #include <ompl/base/ConstrainedSpaceInformation.h>
 #include <ompl/base/spaces/constraint/ProjectedStateSpace.h>
+#include <ompl/base/spaces/constraint/AtlasStateSpace.h>
 #include <ompl/base/spaces/constraint/TangentBundleStateSpace.h>
 #include <ompl/util/Console.h>
+#include <ompl/util/RandomNumbers.h>
 
 namespace ob = ompl::base;
 
@@ -76,6 +78,8 @@ public:
         }
         else if (st == endPtr)
             j = n;
+        else if (startPtr != nullptr && st == startPtr)
+            j = 0;      // constrained traversals (Atlas, TangentBundle) look at s1 itself
         else
         {
             auto it = table.find(ser(sp, st));
@@ -119,6 +123,7 @@ public:
     bool listMode = false;
     std::map<const ob::State *, long> ptrIndex;
     const ob::State *endPtr = nullptr;
+    const ob::State *startPtr = nullptr;
     long n = 0;
     std::map<std::string, std::vector<long>> table;
     bool r1Decode = false;
@@ -142,19 +147,46 @@ public:
     }
 };
 
+// (tb) delegates to the real validator and remembers how many validity questions had been asked when it returned, so
+// that the questions TangentBundleSpaceInformation's own wrapper asks afterwards can be told apart
+class Tap : public ob::MotionValidator
+{
+public:
+    Tap(const ob::SpaceInformationPtr &si, ob::MotionValidatorPtr real, std::shared_ptr<Scripted> svc)
+      : ob::MotionValidator(si), real_(std::move(real)), svc_(std::move(svc))
+    {
+    }
+    bool checkMotion(const ob::State *s1, const ob::State *s2) const override
+    {
+        bool r = real_->checkMotion(s1, s2);
+        mark = svc_->rec.size();
+        return r;
+    }
+    bool checkMotion(const ob::State *s1, const ob::State *s2, std::pair<ob::State *, double> &lv) const override
+    {
+        bool r = real_->checkMotion(s1, s2, lv);
+        mark = svc_->rec.size();
+        return r;
+    }
+    ob::MotionValidatorPtr real_;
+    std::shared_ptr<Scripted> svc_;
+    mutable size_t mark = 0;
+};
+
 static std::string qstr(const std::vector<long> &q)
 {
     if (q.empty())
         return "-";
     std::string s;
     for (size_t i = 0; i < q.size(); ++i)
-        s += (i ? "," : "") + (q[i] == -2 ? std::string("x") : q[i] < 0 ? std::string("?") : std::to_string(q[i]));
+        s += (i ? "," : "") + (q[i] == -2 ? std::string("x") : q[i] == -3 ? std::string("p") : q[i] < 0 ? std::string("?") : std::to_string(q[i]));
     return s;
 }
 
 int main()
 {
     ompl::msg::setLogLevel(ompl::msg::LOG_NONE);
+    ompl::RNG::setSeed(1);   // the atlas' nearest-neighbour structure draws pivots: same evolution in every process
     std::string line;
     if (!vp::readLine(line))
         return 2;
@@ -287,6 +319,13 @@ int main()
         nodes = {space};
         projSpace = true;
     }
+    else if (spn == "atlas")
+    {
+        auto con = std::make_shared<Sphere>();
+        space = std::make_shared<ob::AtlasStateSpace>(rv(3), con);
+        nodes = {space};
+        projSpace = true;
+    }
     else if (spn == "tb")
     {
         // TangentBundleStateSpace on the same sphere; TangentBundleSpaceInformation wraps the 3-argument checkMotion
@@ -385,12 +424,20 @@ int main()
         space->copyFromReals(sentinel, r);
     }
     const double lvSentinel = 12345.678;
-    const bool hintedSpace = spn == "proj" || spn == "tb" || spn == "dubins" || spn == "dubinssym" || spn == "rs" || spn == "owen" || spn == "vana" ||
+    const bool hintedSpace = spn == "proj" || spn == "tb" || spn == "atlas" || spn == "dubins" || spn == "dubinssym" || spn == "rs" || spn == "owen" || spn == "vana" ||
                              spn == "vanaowen";
     auto mv = si->getMotionValidator();
+    std::shared_ptr<Tap> tap;
+    if (tbSpace)
+    {
+        tap = std::make_shared<Tap>(si, mv, svc);
+        si->setMotionValidator(tap);   // counters are still read from the real validator `mv`
+    }
 
     bool projReached = false;
     std::vector<std::string> projGeo;   // serialised reference traversal g_0 .. g_m
+    std::vector<std::string> projGeoP;  // (tb) the same states after project()
+    const bool atlasLike = spn == "atlas" || spn == "tb";
     std::vector<long> boxInv;
     auto invstr = [&]() -> std::string {
         return (svc->boxMode ? " inv=" + qstr(boxInv) : std::string()) +
@@ -401,8 +448,15 @@ int main()
     // constrained traversal that gave up for geometric reasons: the last candidate it looked at (asked about, then
     // rejected: step too long / wandered / no closer) is not one of its states; shown as 'x'
     auto relabel = [&]() {
-        if (projSpace && !projReached && !svc->rec.empty() && svc->rec.back() == -1)
-            svc->rec.back() = -2;
+        if (projSpace && !projReached)
+        {
+            // (skip the tb wrapper's 'p')
+            size_t k = svc->rec.size();
+            if (k > 0 && svc->rec[k - 1] == -3)
+                --k;
+            if (k > 0 && svc->rec[k - 1] == -1)
+                svc->rec[k - 1] = -2;
+        }
     };
     // fills svc's table for the pair (s1, s2)
     auto prepare = [&]() -> long {
@@ -413,22 +467,48 @@ int main()
         svc->table.clear();
         svc->rec.clear();
         svc->amb = 0;
+        svc->startPtr = projSpace ? s1 : nullptr;
         if (projSpace)
         {
             // subdivision of a constrained motion = the states of the manifold traversal itself, computed here with
             // validity checking off: g_0 = s1, g_1 .. g_m; index m+1 stands for s2 (pointer identity)
+            // (an Atlas creates charts while it travels, which changes the steps of the next traversal over the same
+            //  ground: repeat the reference run until two consecutive runs give the same states)
             std::vector<ob::State *> geo;
-            projReached = space->as<ob::ConstrainedStateSpace>()->discreteGeodesic(s1, s2, true, &geo);
+            std::vector<std::string> prev;
+            for (int rep = 0; rep < 6; ++rep)
+            {
+                for (auto *g : geo)
+                    space->freeState(g);
+                geo.clear();
+                projReached = space->as<ob::ConstrainedStateSpace>()->discreteGeodesic(s1, s2, true, &geo);
+                std::vector<std::string> cur;
+                for (auto *g : geo)
+                    cur.push_back(ser(space, g));
+                bool same = rep > 0 && cur == prev;
+                prev = cur;
+                if (same || !atlasLike)
+                    break;
+            }
             n = (long)geo.size();        // m + 1 with m = geo.size() - 1
             svc->n = n;
             projGeo.clear();
+            projGeoP.clear();
             for (size_t j = 0; j < geo.size(); ++j)
             {
                 projGeo.push_back(ser(space, geo[j]));
                 if (j >= 1)
                     svc->table[ser(space, geo[j])].push_back((long)j);
+                if (tbSpace)
+                {
+                    // what TangentBundleSpaceInformation hands back is the re-projection of a traversal state
+                    space->as<ob::TangentBundleStateSpace>()->project(geo[j]);
+                    projGeoP.push_back(ser(space, geo[j]));
+                }
                 space->freeState(geo[j]);
             }
+            svc->rec.clear();
+            svc->amb = 0;
         }
         else if (n >= 1 && n <= 100000)
             for (long j = 0; j <= n; ++j)
@@ -659,7 +739,14 @@ int main()
                 space->copyState(lvState, sentinel);
                 lastValid.first = op == "cm3" ? lvState : nullptr;
                 lastValid.second = lvSentinel;
+                size_t before = svc->rec.size();
                 bool v = si->checkMotion(s1, s2, lastValid);
+                // TangentBundleSpaceInformation re-projects the state it hands back after an invalid motion; project()
+                // looks at the validity of the result: shown as 'p'
+                (void)before;
+                if (tbSpace)
+                    for (size_t k = tap->mark; k < svc->rec.size(); ++k)
+                        svc->rec[k] = -3;
                 relabel();
                 std::string lv, lvs;
                 if (vp::bits(lastValid.second) == vp::bits(lvSentinel))
@@ -676,7 +763,7 @@ int main()
                     lvs = "?";
                     std::string b = ser(space, lvState);
                     for (size_t k = 0; k < projGeo.size(); ++k)
-                        if (projGeo[k] == b)
+                        if (projGeo[k] == b || (k < projGeoP.size() && projGeoP[k] == b))
                         {
                             lvs = "g" + std::to_string(k);
                             break;
